@@ -178,13 +178,15 @@ def decodeAddr (s : Bytes) : Outcome (Addr × Nat) :=
   if s.length < 2 then .err .addr
   else match s with
     | [] => .err .addr
-    | [_] => .err .addr
-    | t :: l :: _ =>
+    | t :: tl =>
       if t.toNat = AtypDomainName then
-        let dl := l.toNat
-        if s.length < 2 + dl + 2 then .err .addr
-        else if dl = 0 then .err .addr
-        else .ok (.dom (sub s 2 dl) (unbe (sub s (2 + dl) 2)), 2 + dl + 2)
+        match tl with
+        | [] => .err .addr
+        | l :: _ =>
+          let dl := l.toNat
+          if s.length < 2 + dl + 2 then .err .addr
+          else if dl = 0 then .err .addr
+          else .ok (.dom (sub s 2 dl) (unbe (sub s (2 + dl) 2)), 2 + dl + 2)
       else if t.toNat = AtypIPv4 then
         if s.length < 7 then .err .addr else .ok (.ip ⟨.v4 (sub s 1 4), unbe (sub s 5 2)⟩, 7)
       else if t.toNat = AtypIPv6 then
